@@ -13,10 +13,10 @@ echo "== suite with change" | tee $OUT/confirm.log
 (cd $WT && PYTHONPATH=$WT /venv/bin/python -m pytest -q -p no:cacheprovider 2>&1 | tail -1) | tee -a $OUT/confirm.log
 echo "== demo with change (must fail)" | tee -a $OUT/confirm.log
 (cd $WT && PYTHONPATH=$WT /venv/bin/python $DEMO > /tmp/demo_out.txt 2>&1; echo "exit=$?"; tail -3 /tmp/demo_out.txt) | tee -a $OUT/confirm.log
-git -C $WT stash -q
+git -C $WT apply -R $OUT/patch.diff   # (no `git stash`: the stash stack is shared by all worktrees of a repository)
 echo "== demo without change (must pass)" | tee -a $OUT/confirm.log
 (cd $WT && PYTHONPATH=$WT /venv/bin/python $DEMO > /tmp/demo_out.txt 2>&1; echo "exit=$?"; tail -1 /tmp/demo_out.txt) | tee -a $OUT/confirm.log
-git -C $WT stash pop -q
+git -C $WT apply $OUT/patch.diff
 if ! git -C /repo diff --quiet; then echo "/repo not clean"; exit 2; fi
 git -C /repo apply $OUT/patch.diff || { echo "patch does not apply"; exit 2; }
 for P in "$@"; do
